@@ -729,6 +729,37 @@ def make_val_events(ctx):
             return None
         return (body.orig_operand(c.args[1]), next(iter(srcs)))
 
+    def m_hidden_r_filter(body, c):
+        """the reading-side guard written as `writer_of(dst).filter(|w| !requires(cur, w))` + abort on Some"""
+        inf = ctx.infeasible(body)
+        for fc in body.find_calls(lambda f: f.qname == 'std::option::Option::filter' and len(f.args) >= 2 and c.bb in ctx.base_call_bbs(body.orig_operand(f.args[0]))):
+            if ctx.base_call_bbs(body.orig_operand(fc.args[0])) != {c.bb}:
+                continue
+            for o in body.orig_operand(fc.args[1]):
+                if o.kind != 'aggr':
+                    continue
+                st = body.blocks[o.key[0]]['stmts'][o.key[1]]
+                cb = F.bodies.get(st['rv']['ak'].get('closure'))
+                if cb is None or len(cb.returns()) != 1:
+                    continue
+                ts = [t for t in cb.find_calls(lambda t: F.callee_body(t) is not None and F.callee_body(t).id == roles.trans_req.id)
+                      if all(x.kind == 'arg' and x.key == 1 for x in cb.orig_operand(t.args[1])) and all(x.kind == 'arg' and x.key == 2 for x in cb.orig_operand(t.args[2]))]
+                if len(ts) != 1:
+                    continue
+                ds = cb.defs.get(0, [])
+                if not (len(ds) == 1 and ds[0][0] == 'stmt' and ds[0][3]['k'] == 'un' and ds[0][3]['uop'] == 'Not'
+                        and ctx.base_call_bbs(cb.orig_operand(F.operand(ds[0][3]['a']))) == {ts[0].bb}):
+                    continue  # keeps the writers the current task DOES require
+                bad_edges = [n for n, g in guard_edges_on_call(body, fc) if g.variants() == frozenset(['Some'])]
+                if not bad_edges or any(r in body.reach([e], avoid=inf) for e in bad_edges for r in body.returns()):
+                    continue
+                caps = [F.operand(x) for x in st['rv']['ops']]
+                tn = [x for x in caps if x[0] in ('c', 'm') and roles.task_node and roles.task_node in body.local_ty(x[1][0])]
+                if len(tn) != 1 or not ctx.is_cur(body.orig_operand(tn[0])):
+                    continue
+                return (body.orig_operand(c.args[1]),)
+        return None
+
     def m_hidden_r(body, node):
         if isinstance(node, tuple):
             return None
@@ -746,7 +777,7 @@ def make_val_events(ctx):
             if ctx.is_cur(a1) and len(a1) == 1 and len(a2) == 1 and all(o.kind == 'call' and o.key == c.bb for o in a2):
                 ts.append(t)
         if not ts:
-            return None
+            return m_hidden_r_filter(body, c)
         tb = {t.bb for t in ts}
         for e in some_edges:
             seen = body.reach([e], avoid=ctx.both(inf, lambda x: x in tb))
